@@ -147,8 +147,17 @@ class Run:
 
     def model_check(self, module, cfg, name=None, **kw):
         """Exhaustive check of the design model.  A counterexample here is a defect of the
-        *model* (rule V1): inconclusive, never a violation of the code."""
-        r = self.tlc(module, cfg, name=name or cfg, **kw)
+        *model* (rule V1): inconclusive, never a violation of the code.  In the thorough tier TLC also
+        reports coverage; actions and sub-expressions never evaluated are listed in the evidence
+        (an action never taken means the property was not exercised by the model)."""
+        extra = list(kw.pop("extra", ()))
+        cov = self.tier == "thorough" and os.environ.get("VERIF_COVERAGE", "1") == "1"
+        if cov:
+            extra += ["-coverage", "1"]
+        r = self.tlc(module, cfg, name=name or cfg, extra=extra, **kw)
+        if cov:
+            zero = sorted(set(re.findall(r"^<(\w+) line \d+, col \d+ to line \d+, col \d+ of module \w+>: 0:0", r.out, re.M)))
+            self.mc[-1]["actions_never_taken"] = zero
         self.log("MC %s: %d generated, %d distinct, depth %d, %.1fs" % (cfg, r.generated, r.distinct, r.depth, r.wall))
         return r
 
